@@ -44,7 +44,7 @@ def step_sig(hist, ej):
         return "list:%s" % ev.get("via")
     if e == "bypath":
         return "bypath:found=%s" % ev.get("found")
-    if e == "req":
+    if e in ("req", "reqstart"):
         q, ob = ev["q"], ev["ob"]
         # the endpoint concerned: the one whose function ran, else the one the generator aimed at
         inv = ob.get("inv") or []
@@ -61,7 +61,9 @@ def step_sig(hist, ej):
         for x in hist[:ej]:
             if x.get("e") == "mod":
                 online = x["on"]
-        where = kind + (":offline" if mod == 1 and not online else "")
+            if x.get("e") == "reqstart":
+                online = True
+        where = kind + (":starting" if mod == 1 and e == "reqstart" else ":offline" if mod == 1 and not online else "")
         if ob.get("err"):
             return "req:%s:%s:%s:transport" % (where, q["m"], q["body"])
         if q["body"] in ("overdecl", "overchunk") and inv:
@@ -149,7 +151,7 @@ def run(ctx):
     pool = ThreadPoolExecutor(max_workers=1)
     laws_future = pool.submit(laws)
     # 2. histories from the specification
-    nsim = 3200 if quick else 48000
+    nsim = 3200 if quick else 40000
     scripts = generate(ctx, nsim)
     if len(scripts) < nsim // 2:
         raise vlib.Inconclusive("history generation produced only %d scripts" % len(scripts))
@@ -169,8 +171,8 @@ def run(ctx):
             nevents += len(h)
             for e in h:
                 t = e.get("e")
-                if t == "req":
-                    key = "req:%s:%s" % (e["q"]["m"], e["ob"].get("st"))
+                if t in ("req", "reqstart"):
+                    key = "%s:%s:%s" % (t, e["q"]["m"], e["ob"].get("st"))
                     if e["ob"].get("retried"):
                         repeated.append({"q": e["q"], "retried": e["ob"]["retried"], "stacks": e["ob"].get("stacks", "")[:6000]})
                 elif t == "reg":
@@ -185,7 +187,7 @@ def run(ctx):
     mcs = laws_future.result()
     pool.shutdown()
     distinct = len({vlib.sha(s) for s in scripts if nontrivial(s)})
-    nreq = sum(v for k, v in stats.items() if k.startswith("req:"))
+    nreq = sum(v for k, v in stats.items() if k.startswith("req"))
     vlib.finish(ctx, LEVEL, {
         "states": sum(m.distinct for m in mcs), "transitions": sum(m.generated for m in mcs),
         "traces_validated_against_impl": ok,
@@ -203,7 +205,7 @@ def run(ctx):
         "input and URL variables it saw, the custom response header and the record lock",
         "requests carry no credentials and no authenticator is set: endpoints requiring more than PermitAnyone are "
         "outside this statement (C12); no Origin header (CORS is part of C12)",
-        "one controllable module (x07mod) under module management; the state 'module is starting' (wait up to 10 s) is not driven",
+        "one controllable module (x07mod) under module management; a request during its start is released into a start that completes 100 ms later (the package waits up to 10 s)",
         "the api registry is global and has no unregister: every history uses its own path prefix inside one process"])
 
 
